@@ -245,12 +245,12 @@ Proof.
   destruct (sbase s) as [|l|t|t|ms|g] eqn:Eb.
   - destruct p; [right; exact Hm|left; unfold bmember_s; rewrite Eb; reflexivity].
   - destruct (Bool.eqb _ p); [apply (nw_same o s Hm)|apply (nw_nil o _ Hm)].
-  - destruct p; [destruct (sub _ c); [apply (nw_same o s Hm)|destruct (sub c _); [right; exact Hm|apply (nw_nil o _ Hm)]]
+  - destruct p; [destruct (sub _ c); [apply (nw_same o s Hm)|destruct (sub c _ || promotable c _); [right; exact Hm|apply (nw_nil o _ Hm)]]
                 |destruct (sub _ c); [apply (nw_nil o _ Hm)|apply (nw_same o s Hm)]].
   - destruct (Bool.eqb _ p); [apply (nw_same o s Hm)|apply (nw_nil o _ Hm)].
-  - destruct p; [destruct (sub _ c); [apply (nw_same o s Hm)|destruct (sub c _); [right; exact Hm|apply (nw_nil o _ Hm)]]
+  - destruct p; [destruct (sub _ c); [apply (nw_same o s Hm)|destruct (sub c _ || promotable c _); [right; exact Hm|apply (nw_nil o _ Hm)]]
                 |destruct (sub _ c); [apply (nw_nil o _ Hm)|apply (nw_same o s Hm)]].
-  - destruct p; [destruct (sub _ c); [apply (nw_same o s Hm)|destruct (sub c _); [right; exact Hm|apply (nw_nil o _ Hm)]]
+  - destruct p; [destruct (sub _ c); [apply (nw_same o s Hm)|destruct (sub c _ || promotable c _); [right; exact Hm|apply (nw_nil o _ Hm)]]
                 |destruct (sub _ c); [apply (nw_nil o _ Hm)|apply (nw_same o s Hm)]].
 Qed.
 
@@ -261,10 +261,10 @@ Proof.
   - destruct (sbase s) as [|l'|t|t|ms|g] eqn:Eb.
     + right; exact Hm.
     + destruct (obj_eqb l' l); [apply (nw_same o s Hm)|apply (nw_nil o _ Hm)].
-    + destruct (isinst l _); [right; exact Hm|apply (nw_nil o _ Hm)].
-    + destruct l; try apply (nw_nil o _ Hm). destruct (sub c t); [right; exact Hm|apply (nw_nil o _ Hm)].
-    + destruct (isinst l _); [right; exact Hm|apply (nw_nil o _ Hm)].
-    + destruct (isinst l _); [right; exact Hm|apply (nw_nil o _ Hm)].
+    + destruct (isinst l _ || promotable _ _); [right; exact Hm|apply (nw_nil o _ Hm)].
+    + destruct l; try apply (nw_nil o _ Hm). destruct (sub c t || promotable c t); [right; exact Hm|apply (nw_nil o _ Hm)].
+    + destruct (isinst l _ || promotable _ _); [right; exact Hm|apply (nw_nil o _ Hm)].
+    + destruct (isinst l _ || promotable _ _); [right; exact Hm|apply (nw_nil o _ Hm)].
   - destruct (sbase s) as [|l'|t|t|ms|g] eqn:Eb; try apply (nw_same o s Hm).
     destruct (obj_eqb l' l); [apply (nw_nil o _ Hm)|apply (nw_same o s Hm)].
 Qed.
@@ -349,12 +349,16 @@ Lemma boolop_merge_nw : forall c V o,
 Proof.
   induction c; intros V o Hm; simpl in *; try (left; exact Hm).
   - apply IHc. exact Hm.
-  - rewrite bmember_app in Hm. apply orb_true_iff in Hm. destruct Hm as [Hm|Hm]; [left; exact Hm|].
-    destruct (cond_nw c1) as [H1 _]. unfold narrow, constrain in Hm.
-    destruct (apply_all_nw _ _ o H1 V Hm) as [H|H]; [left; exact H|right; apply bmember_app_l; exact H].
-  - rewrite bmember_app in Hm. apply orb_true_iff in Hm. destruct Hm as [Hm|Hm]; [left; exact Hm|].
-    destruct (cond_nw c1) as [_ H2]. unfold narrow, constrain in Hm.
-    destruct (apply_all_nw _ _ o H2 V Hm) as [H|H]; [left; exact H|right; apply bmember_app_l; exact H].
+  - rewrite bmember_app in Hm. apply orb_true_iff in Hm. destruct Hm as [Hm|Hm].
+    + destruct (IHc1 V o Hm) as [H|H]; [left; exact H|right; apply bmember_app_l; exact H].
+    + destruct (IHc2 _ o Hm) as [H|H]; [|right; apply bmember_app_r; exact H].
+      destruct (cond_nw c1) as [H1 _]. unfold narrow, constrain in H.
+      destruct (apply_all_nw _ _ o H1 V H) as [H'|H']; [left; exact H'|right; apply bmember_app_l; exact H'].
+  - rewrite bmember_app in Hm. apply orb_true_iff in Hm. destruct Hm as [Hm|Hm].
+    + destruct (IHc1 V o Hm) as [H|H]; [left; exact H|right; apply bmember_app_l; exact H].
+    + destruct (IHc2 _ o Hm) as [H|H]; [|right; apply bmember_app_r; exact H].
+      destruct (cond_nw c1) as [_ H2]. unfold narrow, constrain in H.
+      destruct (apply_all_nw _ _ o H2 V H) as [H'|H']; [left; exact H'|right; apply bmember_app_l; exact H'].
 Qed.
 
 Theorem narrow_e2e_no_widening : forall V c pol o,
